@@ -11,7 +11,7 @@ import (
 var intrinsicNames = map[string]bool{
 	"vU8": true, "vU16": true, "vU32": true, "vU64": true, "vBool": true,
 	"vassume": true, "vcheck": true, "vreach": true, "vpanics": true, "vpure": true,
-	"vmaporder": true, "vnote": true, "vsymtype": true, "vconcrete": true, "vconcreteInt": true, "vcheckEqInt": true, "vmerge": true,
+	"vmaporder": true, "vnote": true, "vsymtype": true, "vconcrete": true, "vconcreteInt": true, "vcheckEqInt": true, "vclockbound": true, "vmerge": true,
 }
 
 func isIntrinsicName(fn *ssa.Function) bool {
@@ -392,6 +392,14 @@ func (e *Engine) tick() T {
 	e.s.assert(binop("<", t, bv(1<<62, 64), false))
 	e.s.assert(binop(">=", t, e.clock, false))
 	e.clock = t
+	if e.clockMax.w == 64 {
+		if e.clockBase == nil {
+			b := t
+			e.clockBase = &b
+		} else {
+			e.s.assert(binop("<", binop("-", t, *e.clockBase, false), e.clockMax, false))
+		}
+	}
 	return t
 }
 
@@ -469,6 +477,11 @@ func (e *Engine) harnessIntrinsic(name string, args []Value, guard T, site *ssa.
 		if !x.isC {
 			e.conc[x.s] = int64(k.c)
 		}
+		return nil
+	case "vclockbound":
+		// all later clock readings stay within d nanoseconds of the first one
+		e.clockMax = args[0].(T)
+		e.clockBase = nil
 		return nil
 	case "vreach":
 		e.res.Reached[lbl(0)]++
